@@ -103,7 +103,9 @@ CloseClauses(fr, reported) == <<
 
 \* a cost-0 match must pair equal data, a paid change must pair different data
 KeepClauses(i, j) == <<
-  <<"C02", "unequal-items-matched-at-zero-cost", FN(i).lh = TN(j).lh>> >>
+  <<"C02", "unequal-items-matched-at-zero-cost", FN(i).lh = TN(j).lh>>,
+  \* the same fact read as C01: an element shown as unchanged stands for itself in BOTH read-backs
+  <<"C01", "element-kept-as-unchanged-differs-between-the-documents", FN(i).lh = TN(j).lh>> >>
 ChangeClauses(i, j, c) == <<
   <<"C02", "equal-items-reported-as-changed", FN(i).ch # TN(j).ch>>,
   <<"C02", "change-with-non-positive-cost", c > 0>> >>
